@@ -1,9 +1,80 @@
 (* C08 — cache.Cache with the LRU store, sequential behaviour.
-   Only statements, each closed by [exact] of a lemma proved in Cache/. *)
+   Only statements, each closed by [exact] of a lemma proved in Cache/.
+
+   Model: Cache/CacheModel.v (Cache + lruStore over the heapq model of Heapq/HeapqModel.v, whose
+   [variant] carries the known findings F1/F2 as switches).  References: Cache/CacheSpec.v —
+   S2 = reference LRU (recency list), S1 = policy-agnostic cache (victims taken from the observed
+   callback log and checked: present key, eviction only while the value does not fit, stop only
+   when it fits).
+
+   FULL PROPERTY (text of C08): for every history, size function >= 0 and limit > 0, the answers and
+   callback logs equal those of the reference LRU:  run_new hv lim ops = map ok_event (s2_run [] ops).
+   - for the heap variant [repaired] this is C08_refines_S2_repaired (see below, when present);
+   - for the heap variant [pinned] (the code as it is: known finding F2) it is FALSE of the
+     faithful model: C08_victim_refuted;
+   - everything in it except WHICH present entry is evicted first holds for EVERY variant:
+     C08_refines_S1_partial and C08_consistent. *)
 From Coq Require Import ZArith List Bool.
 Import ListNotations.
-From Mds Require Import Heapq.HeapqModel Cache.CacheSpec Cache.CacheModel Cache.CacheWitness.
+From Mds Require Import Heapq.HeapqModel Cache.CacheSpec Cache.CacheModel Cache.CacheWitness
+  Cache.CacheLruProofs Cache.CacheTheorems.
 Local Open Scope Z_scope.
+
+(* For every heap variant, key type with decidable equality, size function >= 0, limit > 0 and
+   history of Put/Get/Has/Remove/Clear/Len/Size: no call panics or runs out of fuel, and the
+   results and callback logs are accepted by S1: Has/Get answer presence and the stored value (the
+   zero value when absent), Len is the number of present keys, Size the sum of their sizes, a Put
+   larger than the limit is refused and changes nothing, a fitting Put reports the replaced entry
+   then only needed victims that are present and ends within the limit, Remove/Clear report each
+   departing entry exactly once with its key and value, nothing else is reported.
+   Missing w.r.t. the full property: the victims are the least recently used entries, in order. *)
+Theorem C08_refines_S1_partial :
+  forall (K V : Type) (keqb : K -> K -> bool),
+    (forall a b, keqb a b = true <-> a = b) ->
+  forall (kzero : K) (vzero : V) (sizeOf : V -> Z),
+    (forall v, 0 <= sizeOf v) ->
+  forall (hv : variant) (lim : Z) (ops : list (op K V)),
+    0 < lim ->
+    exists obs,
+      run_new K V keqb kzero vzero sizeOf hv lim ops = map ok_event obs /\
+      s1_accepts K V keqb vzero sizeOf lim [] ops obs.
+Proof. exact refines_S1. Qed.
+Print Assumptions C08_refines_S1_partial.
+
+Example C08_refines_S1_partial_ex :
+  run_new Z Z Z.eqb 0 0 unit_size pinned 2 [OPut 1 10; OPut 2 20; OGet 1; OPut 3 30; OHas 2; ORemove 1; OSize; OClear; OLen]
+  = map ok_event [(RBool true, []); (RBool true, []); (RGet 10 true, []); (RBool true, [(2, 20)]); (RBool false, []);
+                  (RBool true, [(1, 10)]); (RNum 1, []); (RUnit, [(3, 30)]); (RNum 0, [])].
+Proof. vm_compute. reflexivity. Qed.
+
+(* In every reachable state, for every variant: the keys in the heap are distinct, [present] maps
+   every heap element's key to its offset and holds no other key, Size() is the sum of the sizes of
+   the present values, lies in [0, limit], and Len() is their number. *)
+Theorem C08_consistent :
+  forall (K V : Type) (keqb : K -> K -> bool),
+    (forall a b, keqb a b = true <-> a = b) ->
+  forall (kzero : K) (vzero : V) (sizeOf : V -> Z),
+    (forall v, 0 <= sizeOf v) ->
+  forall (hv : variant) (lim : Z) (ops : list (op K V)) (c : cache K V),
+    0 < lim ->
+    exec K V keqb kzero vzero sizeOf hv {| store := lru_new K V; csize := 0; count := 0; limit := lim |} ops = Some c ->
+    let d := data (access (store c)) in
+    NoDup (pkeys d) /\
+    (forall i e, get d i = Some e -> map_get K keqb (present (store c)) (key e) = Some i) /\
+    (forall k, map_get K keqb (present (store c)) k <> None -> In k (pkeys d)) /\
+    cache_size K V c = total sizeOf (ents d) /\
+    cache_len K V c = len d /\
+    0 <= cache_size K V c <= lim /\
+    limit c = lim.
+Proof. exact reachable_consistent. Qed.
+Print Assumptions C08_consistent.
+
+Example C08_consistent_ex :
+  exists c, exec Z Z Z.eqb 0 0 unit_size pinned {| store := lru_new Z Z; csize := 0; count := 0; limit := 3 |}
+                 [OPut 1 10; OPut 2 20; OPut 3 30; OGet 1; OPut 4 40] = Some c /\
+            map (fun e => (lastAccess e, key e)) (data (access (store c))) = [(3, 3); (4, 1); (5, 4)] /\
+            present (store c) = [(1, 1); (3, 0); (4, 2)].
+Proof. eexists. split; [vm_compute; reflexivity|]. split; vm_compute; reflexivity. Qed.
 
 (* Under the pinned heap (known finding F2) the full property is false of the faithful model: there
    is a history (15 calls, limit 7, unit sizes, corpus/C08) whose answers differ from the reference
